@@ -457,6 +457,10 @@ void jstring(std::string& t, std::string& v, int maxlen)
 		}
 		case 3: { // \uXXXX of a BMP scalar (no surrogates, no NUL)
 			uint32_t cp = (r >> 8) % 0xFFFF + 1;
+			if ((r & 0xc0) == 0) { // 1 in 4: the edges of the UTF-8 length classes and of the surrogate block (after seeded C06-O)
+				static const uint32_t edge[] = {0x7f, 0x80, 0x81, 0xff, 0x100, 0x7fe, 0x7ff, 0x800, 0x801, 0xfff, 0x1000, 0xd7ff, 0xe000, 0xfffd, 0xfffe, 0xffff};
+				cp = edge[(r >> 8) % (sizeof edge / sizeof edge[0])];
+			}
 			if (cp >= 0xD800 && cp <= 0xDFFF)
 				cp = (r & 0x100) ? 0xD7FF : 0xE000;
 			t += hex4(cp, r);
